@@ -160,8 +160,25 @@ type channel struct {
 	untilWrite     bool
 	closed         int32
 	running        int32
-	closeErr       error
-	writeLock      sync.Mutex // for sync write
+	closeErr       atomic.Value // closeReason of the Close call that took effect
+	writeLock      sync.Mutex   // for sync write
+}
+
+// closeReason wraps the (possibly nil) error given to Close.
+type closeReason struct {
+	err error
+}
+
+// closedError returns nil while the channel is open, otherwise the non-nil error
+// that write operations on the closed channel fail with.
+func (c *channel) closedError() error {
+	if c.IsActive() {
+		return nil
+	}
+	if reason, ok := c.closeErr.Load().(closeReason); ok && nil != reason.err {
+		return reason.err
+	}
+	return net.ErrClosed
 }
 
 // ID get channel id
@@ -171,11 +188,8 @@ func (c *channel) ID() int64 {
 
 // Write a message through the Pipeline
 func (c *channel) Write(message Message) error {
-	if !c.IsActive() {
-		select {
-		case <-c.ctx.Done():
-			return c.closeErr
-		}
+	if err := c.closedError(); nil != err {
+		return err
 	}
 
 	c.invokeMethod(func() {
@@ -194,6 +208,7 @@ func (c *channel) Trigger(event Event) {
 // Close through the Pipeline
 func (c *channel) Close(err error) {
 	if atomic.CompareAndSwapInt32(&c.closed, 0, 1) {
+		c.closeErr.Store(closeReason{err})
 
 		// wait async send finished.
 		if nil != c.writeQueue {
@@ -204,7 +219,6 @@ func (c *channel) Close(err error) {
 			}
 		}
 
-		c.closeErr = err
 		c.transport.Close()
 		c.cancel()
 
@@ -216,8 +230,8 @@ func (c *channel) Close(err error) {
 
 // Writev to write [][]byte for optimize syscall
 func (c *channel) Writev(p [][]byte) (n int64, err error) {
-	if nil != c.closeErr {
-		return 0, c.closeErr
+	if err := c.closedError(); nil != err {
+		return 0, err
 	}
 
 	// enable async write
@@ -242,6 +256,10 @@ func (c *channel) Write1(p []byte) (n int, err error) {
 // CtxWrite1 channels with asynchronous write enabled, writes will block until the write is successfully sent to the queue or times out.
 // for synchronous write channels, SetDeadline will be called to ensure that the blocking write operation is interrupted after a timeout.
 func (c *channel) CtxWrite1(ctx context.Context, p []byte) (n int, err error) {
+	if err = c.closedError(); nil != err {
+		return 0, err
+	}
+
 	// enable async write
 	if nil != c.writeQueue {
 		wn, err := c.asyncWrite(ctx, p, true)
@@ -269,6 +287,10 @@ func (c *channel) CtxWrite1(ctx context.Context, p []byte) (n int, err error) {
 // CtxWritev channels with asynchronous write enabled, writes will block until the write is successfully sent to the queue or times out.
 // for synchronous write channels, SetDeadline will be called to ensure that the blocking write operation is interrupted after a timeout.
 func (c *channel) CtxWritev(ctx context.Context, pv [][]byte) (n int64, err error) {
+	if err = c.closedError(); nil != err {
+		return 0, err
+	}
+
 	// enable async write
 	if nil != c.writeQueue {
 		wn, err := c.asyncWritev(ctx, pv)
@@ -296,8 +318,8 @@ func (c *channel) CtxWritev(ctx context.Context, pv [][]byte) (n int64, err erro
 // ReadFrom reads data from r until EOF or error.
 // The return value n is the number of bytes read.
 func (c *channel) ReadFrom(r io.Reader) (n int64, err error) {
-	if nil != c.closeErr {
-		return 0, c.closeErr
+	if err := c.closedError(); nil != err {
+		return 0, err
 	}
 
 	const MinRead = 1024
@@ -338,8 +360,8 @@ func (c *channel) Writer() io.Writer {
 }
 
 func (c *channel) write1(p []byte, clone bool) (n int, err error) {
-	if nil != c.closeErr {
-		return 0, c.closeErr
+	if err := c.closedError(); nil != err {
+		return 0, err
 	}
 
 	// enable async write
@@ -380,7 +402,7 @@ func (c *channel) asyncWrite(ctx context.Context, p []byte, clone bool) (int64, 
 		case <-ctx.Done():
 			return 0, ctx.Err()
 		case <-c.ctx.Done():
-			return 0, c.closeErr
+			return 0, c.doneError()
 		case c.writeQueue <- packet:
 			// write queue
 		}
@@ -389,7 +411,7 @@ func (c *channel) asyncWrite(ctx context.Context, p []byte, clone bool) (int64, 
 		case <-ctx.Done():
 			return 0, ctx.Err()
 		case <-c.ctx.Done():
-			return 0, c.closeErr
+			return 0, c.doneError()
 		case c.writeQueue <- packet:
 			// write queue
 		default:
@@ -429,7 +451,7 @@ func (c *channel) asyncWritev(ctx context.Context, p [][]byte) (int64, error) {
 		case <-ctx.Done():
 			return 0, ctx.Err()
 		case <-c.ctx.Done():
-			return 0, c.closeErr
+			return 0, c.doneError()
 		case c.writeQueue <- packet:
 			// write queue
 		}
@@ -438,7 +460,7 @@ func (c *channel) asyncWritev(ctx context.Context, p [][]byte) (int64, error) {
 		case <-ctx.Done():
 			return 0, ctx.Err()
 		case <-c.ctx.Done():
-			return 0, c.closeErr
+			return 0, c.doneError()
 		case c.writeQueue <- packet:
 			// write queue
 		default:
@@ -451,6 +473,15 @@ func (c *channel) asyncWritev(ctx context.Context, p [][]byte) (int64, error) {
 		c.executor.Exec(c.writeOnce)
 	}
 	return dataLen, nil
+}
+
+// doneError returns the error for a write that found the channel context done:
+// the close error, or the context's error when the parent context ended first.
+func (c *channel) doneError() error {
+	if err := c.closedError(); nil != err {
+		return err
+	}
+	return c.ctx.Err()
 }
 
 // hasPendingWrites reports whether accepted packets are still queued or being sent.
